@@ -123,6 +123,9 @@ def make_side(rng, which, static, n_extras, rec_mode, play_mode, neg):
     index = base
     if neg and rec_mode != "kw" and play_mode != "kw":
         index = -1          # the path is the last positional argument in both calls
+    elif rec_mode == "kw" and play_mode == "kw" and rng.random() < 0.5:
+        # the keyword wins whatever the configured position holds (self, another argument, nothing)
+        index = rng.choice([0, -1, base + 2, rng.randrange(0, base + 1)])
     return {"static": static, "extras": extras, "rec": rec_mode, "play": play_mode, "index": index}
 
 
@@ -500,8 +503,8 @@ def direct(case, obs):
         elif not same_bytes(written["PI"], expand(cin)):
             fails.append(("input-bytes-differ", "restored input differs from the %d recorded bytes (got %s)" %
                           (size_of(cin), str(written["PI"])[:120])))
-        if obs.get("play_ret") != "PI":
-            fails.append(("input-return-path", "replayed input call returned %s, not the replayed path" % obs.get("play_ret")))
+    if obs.get("play_ret") != "PI":
+        fails.append(("input-return-path", "replayed input call returned %s, not the replayed path" % obs.get("play_ret")))
     for which, content, opened, role in (("holder_rec", cout, obs["opened_rec"], "RO"), ("holder_play", cout, obs["opened_play"], "PO")):
         h = obs[which]
         if above_out:
